@@ -28,7 +28,7 @@ func scanMain() {
 	defer out.Flush()
 	rnd := rand.New(rand.NewSource(*seed))
 	fams := []string{"set", "hash", "zset", "key"}
-	orders := []string{"asc", "desc", "random", "churn", "rename", "store", "overwrite"}
+	orders := []string{"asc", "desc", "random", "churn", "rename", "store", "overwrite", "ascover"}
 	for t := 0; t < *traces; t++ {
 		db := openDB()
 		scanHistory = nil
@@ -133,6 +133,14 @@ func buildCollection(db *redka.DB, rnd *rand.Rand, fam, order string, n int) str
 		addOne(db, fam, key, i, rnd)
 	}
 	switch order {
+	case "ascover":
+		// built in ascending order (rowid order = index order, no D10), then some elements written again:
+		// an overwritten element must keep its place in the iteration
+		for _, i := range idx {
+			if rnd.Intn(3) == 0 {
+				addOne(db, fam, key, i, rnd)
+			}
+		}
 	case "overwrite":
 		// write about a third of the elements again (same name, new value / score): the element keeps its place
 		for _, i := range idx {
